@@ -228,7 +228,8 @@ class Check(core.PropertyCheck):
     SPEC_DIR = "ReqUrl"
     MODEL = "ReqUrl"
     MON = "Mon_ReqUrl"
-    REQUIRED_WITNESSES = ("seturl_dns", "seturl_idn", "seturl_ipv4", "seturl_ipv6", "seturl_with_host_header", "reassign_dns",
+    REQUIRED_WITNESSES = ("seturl_dns", "seturl_idn", "seturl_ipv4", "seturl_ipv6", "seturl_with_host_header",
+                          "scheme_only_url_edit_elision_flips", "scheme_only_url_edit_explicit_port", "reassign_dns",
                           "reassign_ipv4", "reassign_ipv6", "sethost_with_host_header", "sethost_with_authority_h1", "sethost_with_authority_h2",
                           "setport_with_host_header", "setport_with_authority_h1", "setport_with_authority_h2",
                           "setport_to_default")
@@ -249,11 +250,15 @@ class Check(core.PropertyCheck):
         canon = {f: c for f, (c, _s) in PATHS.items()}
         stored = {f: STORED.get(f, c) for f, c in canon.items()}
         urls = {("http", "h1", "plain", "none", "root"), ("http", "h2", "upper", "alt", "query"),
-                ("https", "h2", "plain", "cross", "empty"), ("http", "h1", "plain", "cross", "emptyq"),
+                ("https", "h1", "plain", "cross", "empty"), ("http", "h1", "plain", "cross", "emptyq"),
                 ("http", "idn1", "alabel", "none", "frag"), ("https", "idn1", "ulabel", "alt", "root"),
                 ("http", "v4", "plain", "alt", "params"), ("http", "v6", "bracket", "none", "root"),
-                ("https", "v6", "bracket", "alt", "qonly"), ("http", "h2", "plain", "alt", "semi")}
-        more = {("https", "h1", "plain", "default", "deep"), ("http", "h2", "plain", "default", "dslash"),
+                ("http", "h2", "plain", "alt", "semi"),
+                # scheme-only edits of h1: default-port elision flips (none <-> cross) or the port stays explicit (alt)
+                ("https", "h1", "plain", "none", "plainp"), ("https", "h1", "plain", "alt", "qonly"),
+                ("http", "h1", "plain", "alt", "deep")}
+        more = {("https", "h1", "plain", "default", "deep"), ("https", "v6", "bracket", "alt", "qonly"),
+                ("https", "h2", "plain", "cross", "empty"), ("http", "h2", "plain", "default", "dslash"),
                 ("https", "h1", "plain", "none", "pct")}
         hosts = {"h1", "idn1", "v6"}
         ports = {80, 443, 8080}
@@ -372,7 +377,14 @@ def random_scenario(rng):
             h, hc, _attr = _rand_host(rng)
             s = rng.choice(["http", "https", "HTTP", "Https"]) if rng.random() < 0.3 else rng.choice(["http", "https"])
             port = rng.choice(["", "", ":80", ":443", ":8080", ":%d" % rng.randint(1, 65535)])
-            ops.append(["seturl", s + "://" + h + port + _rand_path(rng), hc])
+            path = _rand_path(rng)
+            ops.append(["seturl", s + "://" + h + port + path, hc])
+            if rng.random() < 0.3:  # then change only the scheme: same numeric port, written out or elided as needed
+                s0 = s.lower()
+                num = int(port[1:]) if port else (443 if s0 == "https" else 80)
+                s1 = "http" if s0 == "https" else "https"
+                p1 = "" if num == (443 if s1 == "https" else 80) and rng.random() < 0.7 else ":%d" % num
+                ops.append(["seturl", s1 + "://" + h + p1 + (path if rng.random() < 0.5 else _rand_path(rng)), hc])
         elif k < 0.65:
             ops.append(["reassign"])
         elif k < 0.85:
